@@ -82,6 +82,9 @@ type Case struct {
 	Evs  []Ev       `json:"evs"`
 	// Perm != 0: the child IEs of every Create / Update IE are sent in another order derived from it
 	Perm uint32 `json:"perm,omitempty"`
+	// Silent: node 1 names itself by an IPv6 address; the UPF (IPv4 only) cannot address a report request to it, so it is
+	// never told about downlink data - its packets are held and released like anybody's all the same
+	Silent bool `json:"silent,omitempty"`
 }
 
 const (
@@ -119,6 +122,7 @@ type stats struct {
 	overflowThenRelease, releaseAfterReuse, twoForw bool
 	recreated                                       bool
 	createdAgain                                    bool // a Create PDR for a PDR that exists (refused), with the session going on
+	silent                                          bool // packets handed up for a session whose SMF cannot be sent a report request
 	takeover                                        bool // a session taken over by the other SMF, with notifications afterwards
 	late                                            bool // notifications delivered after the removal of their PDR
 	rmWithURR                                       bool // a PDR and its URR removed by one message
@@ -133,7 +137,11 @@ func hash(p string) string {
 
 func run(c Case) (v *vcore.Violation, stt stats) {
 	vcore.Journal(c)
-	f, err := fullstack.NewFull(fullstack.FullOpts{Nodes: 2, Gtpu: true})
+	fo := fullstack.FullOpts{Nodes: 2, Gtpu: true}
+	if c.Silent {
+		fo.NodeIDs = map[int]string{1: "2001:db8::b"}
+	}
+	f, err := fullstack.NewFull(fo)
 	if err != nil {
 		panic("infrastructure: " + err.Error())
 	}
@@ -351,8 +359,11 @@ func run(c Case) (v *vcore.Violation, stt stats) {
 						} else {
 							overflowed[m] = true
 						}
-						if ev.NOCP {
+						if ev.NOCP && !(c.Silent && m.owner == 1) {
 							wantSRR++
+						}
+						if c.Silent && m.owner == 1 {
+							stt.silent = true
 						}
 					}
 				}
@@ -862,6 +873,7 @@ func gen(t *rapid.T) Case {
 		sp.PDRs[0].FAR = 1
 		c.Evs = append(c.Evs, small(), Ev{Kind: "del", Sess: 0}, Ev{Kind: "est", Spec: &sp}, Ev{Kind: "burst", Sess: ns, Target: "live", PDR: 1, N: 3}, Ev{Kind: "updfar", Sess: ns, FAR: 1, Action: FORW})
 	}
+	c.Silent = rapid.IntRange(0, 3).Draw(t, "silent") == 0
 	n := rapid.IntRange(2, 14).Draw(t, "nev")
 	nsess := ns
 	if scen == "reuse" || scen == "reassocreuse" || scen == "reuseorphan" || scen == "lateseid0" {
@@ -934,6 +946,9 @@ func brief(c Case) any {
 func account(c Case, s stats) {
 	if s.takeover {
 		vcore.E.Class("notifications_after_a_takeover_by_the_other_smf")
+	}
+	if s.silent {
+		vcore.E.Class("packets_for_a_session_whose_smf_cannot_be_notified")
 	}
 	vcore.E.Eval()
 	vcore.E.ClassN("notifications", int64(s.notified))
